@@ -37,20 +37,27 @@ Const(ty, v) == [k |-> "Constant", type |-> ty, value |-> v]
 
 \* base type specifiers: tokens and the node they denote, exactly as spelled
 BaseTable ==
-  [ int      |-> [toks |-> <<"int">>, node |-> IT(<<"int">>)],
-    ulong    |-> [toks |-> <<"unsigned", "long">>, node |-> IT(<<"unsigned", "long">>)],
-    longlong |-> [toks |-> <<"long", "long", "int">>, node |-> IT(<<"long", "long", "int">>)],
-    tdef     |-> [toks |-> <<"T">>, node |-> IT(<<"T">>)],
-    sref     |-> [toks |-> <<"struct", "S">>, node |-> [k |-> "Struct", name |-> "S", decls |-> Nil]],
+  [ int      |-> [toks |-> <<"int">>, node |-> IT(<<"int">>), aq |-> <<>>, inner |-> <<>>],
+    ulong    |-> [toks |-> <<"unsigned", "long">>, node |-> IT(<<"unsigned", "long">>), aq |-> <<>>, inner |-> <<>>],
+    longlong |-> [toks |-> <<"long", "long", "int">>, node |-> IT(<<"long", "long", "int">>), aq |-> <<>>, inner |-> <<>>],
+    tdef     |-> [toks |-> <<"T">>, node |-> IT(<<"T">>), aq |-> <<>>, inner |-> <<>>],
+    sref     |-> [toks |-> <<"struct", "S">>, node |-> [k |-> "Struct", name |-> "S", decls |-> Nil], aq |-> <<>>, inner |-> <<>>],
     sdef     |-> [toks |-> <<"struct", "S", "{", "int", "m", ";", "}">>,
-                  node |-> [k |-> "Struct", name |-> "S", decls |-> <<MemberM>>]],
+                  node |-> [k |-> "Struct", name |-> "S", decls |-> <<MemberM>>], aq |-> <<>>, inner |-> <<>>],
     udef     |-> [toks |-> <<"union", "{", "int", "m", ";", "}">>,
-                  node |-> [k |-> "Union", name |-> Nil, decls |-> <<MemberM>>]],
+                  node |-> [k |-> "Union", name |-> Nil, decls |-> <<MemberM>>], aq |-> <<>>, inner |-> <<>>],
     edef     |-> [toks |-> <<"enum", "E", "{", "A", ",", "B", "=", "1", "}">>,
                   node |-> [k |-> "Enum", name |-> "E",
                             values |-> [k |-> "EnumeratorList",
-                                        enumerators |-> <<Enumerator("A", Nil), Enumerator("B", Const("int", "1"))>>]]],
-    eref     |-> [toks |-> <<"enum", "E">>, node |-> [k |-> "Enum", name |-> "E", values |-> Nil]] ]
+                                        enumerators |-> <<Enumerator("A", Nil), Enumerator("B", Const("int", "1"))>>]],
+                  aq |-> <<>>, inner |-> <<>>],
+    eref     |-> [toks |-> <<"enum", "E">>, node |-> [k |-> "Enum", name |-> "E", values |-> Nil], aq |-> <<>>, inner |-> <<>>],
+    \* C11 6.7.2.4: _Atomic(T) means the _Atomic-qualified T: the qualifier lands on the type T names - on the
+    \* specifier level for a plain T (aq), on T's own pointer derivation, which becomes the innermost one (inner)
+    atomic_int |-> [toks |-> <<"_Atomic", "(", "int", ")">>, node |-> IT(<<"int">>), aq |-> <<"_Atomic">>, inner |-> <<>>],
+    atomic_T   |-> [toks |-> <<"_Atomic", "(", "T", ")">>, node |-> IT(<<"T">>), aq |-> <<"_Atomic">>, inner |-> <<>>],
+    atomic_ptr |-> [toks |-> <<"_Atomic", "(", "int", "*", ")">>, node |-> IT(<<"int">>), aq |-> <<>>,
+                    inner |-> << [k |-> "ptr", q |-> <<"_Atomic">>] >>] ]
 
 \* ---- declarator syntax trees
 IsDirect(x) == x.k \in {"name", "abs", "paren", "arr", "fun"}
@@ -123,6 +130,7 @@ Start == IF Abstract THEN [k |-> "abs"] ELSE [k |-> "name"]
 DeclName(i) == IF i = 1 THEN "x" ELSE "y"
 
 Init == /\ ctx \in Ctxs /\ base \in Bases /\ squals \in SpecQuals
+        /\ (base = "atomic_ptr" => squals = <<>>)     \* (qualifiers next to _Atomic(pointer): recorded finding of C07)
         /\ stor \in (IF ctx \in {"file", "block"} THEN Storages ELSE {<<>>})
         /\ d = (IF ctx = "typename" THEN [k |-> "abs"] ELSE [k |-> "name"])
         /\ n = 0 /\ done = FALSE /\ decls = <<>> /\ init = "none"
@@ -179,13 +187,14 @@ AllToks == SpecToks \o DeclToks(1)
 Node(i) ==
   LET dd == decls[i]
       nm == IF Named(dd.d) THEN DeclName(i) ELSE Nil
-      td == [k |-> "TypeDecl", declname |-> nm, quals |-> squals, type |-> BaseTable[base].node]
-      ty == Nest(Chain(dd.d), 1, td)
+      qs == squals \o BaseTable[base].aq
+      td == [k |-> "TypeDecl", declname |-> nm, quals |-> qs, type |-> BaseTable[base].node]
+      ty == Nest(Chain(dd.d) \o BaseTable[base].inner, 1, td)
   IN IF Abstract \/ (ctx = "param" /\ ~Named(dd.d))
-     THEN [k |-> "Typename", name |-> Nil, quals |-> squals, type |-> ty]
+     THEN [k |-> "Typename", name |-> Nil, quals |-> qs, type |-> ty]
      ELSE IF IsTypedef
-     THEN [k |-> "Typedef", name |-> nm, quals |-> squals, storage |-> StorageOf, type |-> ty]
-     ELSE [k |-> "Decl", name |-> nm, quals |-> squals, align |-> <<>>, storage |-> StorageOf, funcspec |-> FuncSpecOf,
+     THEN [k |-> "Typedef", name |-> nm, quals |-> qs, storage |-> StorageOf, type |-> ty]
+     ELSE [k |-> "Decl", name |-> nm, quals |-> qs, align |-> <<>>, storage |-> StorageOf, funcspec |-> FuncSpecOf,
            type |-> ty,
            init |-> IF dd.init = "bits" THEN Nil ELSE InitTable[dd.init].node,
            bitsize |-> IF dd.init = "bits" THEN InitTable["bits"].node ELSE Nil]
